@@ -156,7 +156,12 @@ class ShadowOracle(Oracle):
                 raise Violation("%s.diverge" % self.prop, "shadow run '%s' made fewer random draws than the reference run (round %d)"
                                 % (sh.name, ctx.t), shadow=sh.name)
         for sh in self.shadows:
-            if sh.queries and ctx.t <= sh.queries:
+            if isinstance(sh.queries, tuple):
+                # fixed plan ("every", m): one query after every m-th round, no choice point
+                if ctx.t % sh.queries[1] == 0:
+                    self._with(ctx, sh, lambda: sh.algo.get_last_point())
+                    ctx.extra["stats"].bump("inserted_queries")
+            elif sh.queries and ctx.t <= sh.queries:
                 q = ctx.src.choose("query", 3)
                 self.mark = ctx.src.pos
                 for _ in range(q):
